@@ -23,10 +23,10 @@ func (c *Ctx) timerIntrinsic(full string, recv Value, args []Value, e *ast.CallE
 	return Value{}, false
 }
 
-func (x *Exec) selectStmt(fr *Frame, s *ast.SelectStmt, st *State) *State {
+func (x *Exec) selectStmt(fr *Frame, s *ast.SelectStmt, st *State) []*State {
 	panic(engineErr("%s: select not supported here", x.pos(s.Pos())))
 }
 
-func (x *Exec) sendStmt(fr *Frame, s *ast.SendStmt, st *State) *State {
+func (x *Exec) sendStmt(fr *Frame, s *ast.SendStmt, st *State) []*State {
 	panic(engineErr("%s: channel send not supported here", x.pos(s.Pos())))
 }
